@@ -426,11 +426,14 @@ def must_connect(cst, sst, cred):
         usable.append(sid)
     if not usable:
         return False, "no common cert suite"
+    # the server only considers suites its key type can serve
+    usable = [sid for sid in usable
+              if S.ALL_INFOS[sid].setting_kex() in CRED_KEX[cred]]
+    if not usable:
+        return False, "no common suite served by the credential"
     for sid in usable:
         info = S.ALL_INFOS[sid]
         k = info.setting_kex()
-        if k not in CRED_KEX[cred]:
-            return False, "a common suite is not served by credential"
         if k.startswith("ecdhe"):
             curves = [c for c in cst.eccCurves if c in sst.eccCurves]
             if not curves:
@@ -523,7 +526,7 @@ def run_connection(res, tier, seed):
         for j in range(i + 1, len(flat)):
             if flat[i][0] != flat[j][0]:
                 doubles.append((flat[i], flat[j]))
-    for cred in (["rsa"] if tier == "quick" else creds):
+    for cred in creds:
         for d in doubles:
             items.append((cred, d, (), seed))
             items.append((cred, (), d, seed))
